@@ -234,3 +234,35 @@ def transition_values(L, rng, shard=0, nshards=1, per_group=40):
                                 # as a parsed code (int string) so that the value stays optimizable
                                 s.apply_formatting(code, st, en)
                         yield s
+
+
+def esc_seam_values(L, rng, n=3):
+    """values (both classes, styled and unstyled) whose *base text* holds a complete literal escape sequence.
+    The constructor parses such sequences out, so they can only arise at a concatenation seam, through assign_str
+    or through a case conversion; operations that rebuild a value from its text must not parse them again."""
+    out = []
+    for _ in range(n):
+        seq = rng.choice(['\x1b[1m', '\x1b[31m', '\x1b[m', '\x1b[4;34m', '\x1b[38;5;9m'])
+        k = rng.randint(1, len(seq) - 1)
+        head = rng.choice(['ab', 'a b', '', 'x\ty', 'Ab-']) + seq[:k]
+        tail = seq[k:] + rng.choice(['cd', ' c d', 'Z', '\tq', ''])
+        how = rng.randrange(4)
+        try:
+            if how == 0:
+                v = L.AnsiString(head) + tail
+            elif how == 1:
+                v = L.AnsiString('zz')
+                v.assign_str(head + tail)
+            elif how == 2:
+                v = L.AnsiStr(head) + tail
+            else:
+                v = L.AnsiString(head.upper() if False else head)
+                v += L.AnsiString(tail)
+            if rng.random() < 0.4 and isinstance(v, L.AnsiString):
+                v.apply_formatting(rng.choice(['red', 'bold', 'bg_blue']), rng.randint(0, 2), rng.choice([None, 3, 5]))
+            if rng.random() < 0.35:
+                v = L.AnsiStr(v) if isinstance(v, L.AnsiString) else L.AnsiString(v)
+            out.append(v)
+        except Exception:
+            pass
+    return out
